@@ -58,6 +58,21 @@ Theorem C40_nondet_inventory :
 Proof. exact all_nondet_ok. Qed.
 Print Assumptions C40_nondet_inventory.
 
+(* Every call in the two packages that serialises a protobuf message (table
+   regenerated from the source on every run) asks for deterministic output, so map
+   fields inside descriptor options (custom options re-linked through dynamicpb) are
+   written in key order.  _partial: three calls are accepted by name because what
+   they serialise has no map field or never leaves the function (CodeGen/MapRangeModel.v);
+   that Deterministic: true makes proto.Marshal independent of map order is property C05,
+   not re-proved here. *)
+Theorem C40_marshal_sites_deterministic_partial :
+  forall m, In m MapRangeSites.marshal_sites -> marshal_ok m = true.
+Proof. exact all_marshal_sites_ok. Qed.
+Print Assumptions C40_marshal_sites_deterministic_partial.
+Example C40_marshal_sites_nonvacuous :
+  existsb m_deterministic MapRangeSites.marshal_sites = true.
+Proof. reflexivity. Qed.
+
 (* The import block of a generated file, after any sequence of QualifiedGoIdent /
    Import calls: strictly increasing import paths (sorted, no duplicates), exactly
    the referenced and the manually imported packages, and the same block whatever
